@@ -6,7 +6,7 @@ from typing import Any, Dict, List
 
 from .. import gen, hta
 from ..core import Prop
-from .common import case_from_cfg, write_and_load
+from .common import case_from_cfg, draw_prefix, write_and_load
 
 
 # ----------------------------------------------------------------------------- dense laminar families
@@ -186,6 +186,7 @@ class C13(Prop):
                          p_drop_kernel=rng.choice([0, 0.1]), p_drop_launch=rng.choice([0, 0.1]), unlinked_head=rng.choice([0, 1]))
         case = case_from_cfg(rng, cfg)
         case["nstacks"] = 4
+        case["prefix"] = draw_prefix(rng)
         return case
 
     def observe(self, case):
@@ -258,6 +259,7 @@ class C16(Prop):
         case["op"] = rng.choice(names)
         case["minLen"] = rng.choice([1, 2, 3])
         case["topk"] = rng.choice([1, 5])
+        case["prefix"] = draw_prefix(rng)
         return case
 
     def observe(self, case):
